@@ -100,7 +100,13 @@ def _run_op(op, loader, tmpl, tmpl2, Model, tilt=False):
     if op == "asnumpy":
         return [np.asarray(loader.asnumpy())]
     if op == "average":
-        return [np.asarray(loader.average())]
+        # also with a small dask chunk size: the sub-volume stack then splits into blocks of unequal length
+        import dask as _dask
+
+        a_def = np.asarray(loader.average())
+        with _dask.config.set({"array.chunk-size": "6KiB"}):
+            a_small = np.asarray(loader.average())
+        return [a_def, a_small]
     if op == "mock-noise":
         # simulated sub-volumes with tilt-series noise: the noise of molecule i is drawn from a generator seeded by i
         from acryo import MockLoader, Molecules
@@ -319,9 +325,29 @@ def _sched_case(case):
             case.notes.setdefault("signatures", []).append(sig)
         if rep == 0 and (len(threads_seen) >= 2 or p["sched"] in ("threads", "delay")):
             case.nontrivial((p["op"], p["sched"], sig or p["workers"], p["iseed"] % 997))
+    if p["op"] == "average" and len(ref_out) == 2:
+        case.check(ref_out[0].shape == ref_out[1].shape and
+                   float(np.abs(ref_out[0] - ref_out[1]).max()) <= 1e-5 * max(1.0, float(np.abs(ref_out[0]).max())),
+                   "average depends on the dask chunk size (how the sub-volume stack splits into blocks)", None,
+                   err=float(np.abs(ref_out[0] - ref_out[1]).max()))
     # numpy vs dask chunkings of the tomogram
     import dask.array as da
     from acryo import SubtomogramLoader
+
+    if p["op"] in ("asnumpy", "average", "apply"):
+        # integer tomograms (raw counts): the same voxels whether the tomogram is a numpy or a dask array
+        tomo_i = np.clip(np.round(tomo * 20), -120, 120).astype(np.int8)
+        outs_i = []
+        for ch in (0, 9):
+            img_i = da.from_array(tomo_i, chunks=ch) if ch else tomo_i
+            ld_i = SubtomogramLoader(img_i, loader.molecules, order=int(rng.choice([1, 3])) if ch == 0 else outs_i[0][1],
+                                     output_shape=(S, S, S))
+            outs_i.append((np.asarray(ld_i.asnumpy()), ld_i.order))
+        case.check(outs_i[0][0].shape == outs_i[1][0].shape and outs_i[0][0].dtype == outs_i[1][0].dtype and
+                   np.array_equal(outs_i[0][0], outs_i[1][0]),
+                   "sub-volumes of an integer tomogram differ between a numpy and a dask tomogram", None,
+                   dtypes=(str(outs_i[0][0].dtype), str(outs_i[1][0].dtype)),
+                   err=float(np.abs(outs_i[0][0].astype(float) - outs_i[1][0].astype(float)).max()))
 
     for ch in (0, 9, 23):
         img = da.from_array(tomo, chunks=ch) if ch else tomo
